@@ -350,13 +350,13 @@ func classifyHelper(prog *core.Program, fn *ssa.Function) helperClass {
 				for _, v := range []ssa.Value{t.X, t.Y} {
 					if k, ok := core.ConstIntValue(v); ok {
 						switch {
-						case t.Op == token.EQL && k == '"':
+						case (t.Op == token.EQL || t.Op == token.NEQ) && k == '"':
 							hasQuote = true
-						case t.Op == token.EQL && k == '%':
+						case (t.Op == token.EQL || t.Op == token.NEQ) && k == '%':
 							hasPct = true
-						case t.Op == token.EQL && k == '\n':
+						case (t.Op == token.EQL || t.Op == token.NEQ) && k == '\n':
 							hasNL = true
-						case (t.Op == token.LSS && k == 0x20) || (t.Op == token.LEQ && k == 0x1f):
+						case ((t.Op == token.LSS || t.Op == token.GEQ) && k == 0x20) || ((t.Op == token.LEQ || t.Op == token.GTR) && k == 0x1f):
 							hasCtl = true
 						}
 					}
@@ -401,6 +401,13 @@ func classifyHelper(prog *core.Program, fn *ssa.Function) helperClass {
 	}
 	hc.dqEscape = hasQuote && hasPct
 	hc.nlSafe = hasNL || hasCtl
+	// a helper that walks its argument byte by byte is classified exactly: the byte values that can reach a use of the
+	// byte itself (anything but a comparison, a formatting call or a nibble extraction) are enumerated over all 256
+	// values, whatever the shape of the tests
+	if raw, ok := byteLoopRaw(fn); ok {
+		hc.dqEscape = !raw['"'] && !raw['%']
+		hc.nlSafe = !raw['\n']
+	}
 	// exactly two hex digits per encoded byte: fmt verb %02X / %02x after a literal percent sign, a hex table indexed
 	// by both nibbles, or encoding/hex
 	for _, b := range fn.Blocks {
@@ -1219,4 +1226,226 @@ func checkLoopPointerAlias(c *core.Ctx, funcs []*ssa.Function) {
 	if n == 0 {
 		c.Discharge("tmpl.ptralias", "none", token.NoPos, "no address of a scalar variable is stored into a record")
 	}
+}
+
+// byteLoopRaw: for a helper that reads its string parameter one byte at a time (c := v[i], exactly one such read), the set
+// of byte values for which some path from the read reaches a use of c that is neither a comparison, nor an argument of a
+// fmt call, nor a nibble extraction (c>>4, c&15): those bytes can be copied to the output as they are. Every branch
+// condition is evaluated for the concrete byte value; ok is false when the helper has no such shape or a condition on a
+// path does not depend on c and constants alone in a way that can be evaluated (then nothing is concluded from it).
+func byteLoopRaw(fn *ssa.Function) (raw [256]bool, ok bool) {
+	var c ssa.Value
+	for _, b := range fn.Blocks {
+		for _, in := range b.Instrs {
+			lk, isLk := in.(*ssa.Lookup)
+			if !isLk || lk.CommaOk {
+				continue
+			}
+			if _, isParam := lk.X.(*ssa.Parameter); !isParam {
+				continue
+			}
+			if bt, isB := lk.X.Type().Underlying().(*types.Basic); !isB || bt.Info()&types.IsString == 0 {
+				continue
+			}
+			if c != nil {
+				return raw, false
+			}
+			c = lk
+		}
+	}
+	if c == nil {
+		return raw, false
+	}
+	derived := func(v ssa.Value) bool {
+		for {
+			switch t := v.(type) {
+			case *ssa.Convert:
+				v = t.X
+				continue
+			case *ssa.ChangeType:
+				v = t.X
+				continue
+			}
+			break
+		}
+		return v == c
+	}
+	isRawUse := func(in ssa.Instruction) bool {
+		uses := false
+		for _, op := range in.Operands(nil) {
+			if *op != nil && derived(*op) {
+				uses = true
+			}
+		}
+		if !uses {
+			return false
+		}
+		switch t := in.(type) {
+		case *ssa.Convert, *ssa.ChangeType, *ssa.DebugRef:
+			return false
+		case *ssa.MakeInterface:
+			// boxed for a variadic fmt call: judged at the call
+			return false
+		case *ssa.BinOp:
+			switch t.Op {
+			case token.EQL, token.NEQ, token.LSS, token.LEQ, token.GTR, token.GEQ, token.SHR, token.AND:
+				return false
+			}
+		case *ssa.Call:
+			if cal := t.Common().StaticCallee(); cal != nil && cal.Pkg != nil && cal.Pkg.Pkg.Path() == "fmt" {
+				return false
+			}
+		}
+		return true
+	}
+	undecided := false
+	for k := 0; k < 256; k++ {
+		phiEnv := map[*ssa.Phi]int{}
+		var eval func(v ssa.Value) (int64, bool)
+		eval = func(v ssa.Value) (int64, bool) {
+			if v == c {
+				return int64(k), true
+			}
+			switch t := v.(type) {
+			case *ssa.Const:
+				if t.Value != nil && t.Value.Kind() == constant.Bool {
+					if constant.BoolVal(t.Value) {
+						return 1, true
+					}
+					return 0, true
+				}
+				return core.ConstIntValue(t)
+			case *ssa.Convert:
+				if bt, isB := t.Type().Underlying().(*types.Basic); isB && bt.Info()&types.IsInteger != 0 {
+					return eval(t.X)
+				}
+			case *ssa.ChangeType:
+				return eval(t.X)
+			case *ssa.UnOp:
+				if t.Op == token.NOT {
+					if x, ok := eval(t.X); ok {
+						return 1 - x, true
+					}
+				}
+			case *ssa.Phi:
+				if e, has := phiEnv[t]; has {
+					return eval(t.Edges[e])
+				}
+			case *ssa.BinOp:
+				x, okx := eval(t.X)
+				y, oky := eval(t.Y)
+				if !okx || !oky {
+					return 0, false
+				}
+				b2i := func(b bool) (int64, bool) {
+					if b {
+						return 1, true
+					}
+					return 0, true
+				}
+				switch t.Op {
+				case token.EQL:
+					return b2i(x == y)
+				case token.NEQ:
+					return b2i(x != y)
+				case token.LSS:
+					return b2i(x < y)
+				case token.LEQ:
+					return b2i(x <= y)
+				case token.GTR:
+					return b2i(x > y)
+				case token.GEQ:
+					return b2i(x >= y)
+				case token.AND:
+					return x & y, true
+				case token.OR:
+					return x | y, true
+				case token.SUB:
+					if bt, isB := t.Type().Underlying().(*types.Basic); isB && bt.Kind() == types.Uint8 {
+						return (x - y) & 0xff, true
+					}
+					return x - y, true
+				}
+			}
+			return 0, false
+		}
+		steps := 0
+		onPath := map[*ssa.BasicBlock]bool{}
+		var walk func(b *ssa.BasicBlock, from int)
+		walk = func(b *ssa.BasicBlock, from int) {
+			steps++
+			if steps > 20000 {
+				undecided = true
+				return
+			}
+			if b == c.(*ssa.Lookup).Block() && from >= 0 {
+				return // next byte
+			}
+			if onPath[b] {
+				return
+			}
+			onPath[b] = true
+			defer func() { onPath[b] = false }()
+			var saved []*ssa.Phi
+			for _, in := range b.Instrs {
+				if ph, isPhi := in.(*ssa.Phi); isPhi && from >= 0 {
+					if _, had := phiEnv[ph]; !had {
+						saved = append(saved, ph)
+					}
+					phiEnv[ph] = from
+				}
+			}
+			defer func() {
+				for _, ph := range saved {
+					delete(phiEnv, ph)
+				}
+			}()
+			after := b != c.(*ssa.Lookup).Block()
+			for _, in := range b.Instrs {
+				if in == c.(ssa.Instruction) {
+					after = true
+					continue
+				}
+				if after && isRawUse(in) {
+					raw[k] = true
+				}
+			}
+			predIdx := func(s *ssa.BasicBlock) int {
+				for i, p := range s.Preds {
+					if p == b {
+						return i
+					}
+				}
+				return -1
+			}
+			if iff, isIf := b.Instrs[len(b.Instrs)-1].(*ssa.If); isIf {
+				v, known := eval(iff.Cond)
+				if !known {
+					// a condition that does not concern the byte (a flag, the index): both ways
+					for x := range core.BackSliceLocal(iff.Cond) {
+						if x == c {
+							undecided = true
+						}
+					}
+					walk(b.Succs[0], predIdx(b.Succs[0]))
+					walk(b.Succs[1], predIdx(b.Succs[1]))
+					return
+				}
+				if v != 0 {
+					walk(b.Succs[0], predIdx(b.Succs[0]))
+				} else {
+					walk(b.Succs[1], predIdx(b.Succs[1]))
+				}
+				return
+			}
+			for _, s := range b.Succs {
+				walk(s, predIdx(s))
+			}
+		}
+		walk(c.(*ssa.Lookup).Block(), -1)
+	}
+	if undecided {
+		return raw, false
+	}
+	return raw, true
 }
